@@ -308,11 +308,13 @@ public:
 
         assert(x >= insertion_limit);
 
-        const auto diff = x ^ insertion_limit;
+        // compute in 64 bits: for 8 and 16-bit keys x ^ insertion_limit is
+        // promoted to int, whose leading zeros do not match sizeof(Int)
+        const std::uint64_t diff = static_cast<std::uint64_t>(x ^ insertion_limit);
         if (!diff)
             return 0;
 
-        const auto diff_in_bit = (8 * sizeof(Int) - 1) - clz(diff);
+        const auto diff_in_bit = (8 * sizeof(std::uint64_t) - 1) - clz(diff);
 
         const auto row = diff_in_bit / radix_bits;
         const auto bucket_in_row = ((x >> (radix_bits * row)) & mask) - row;
